@@ -94,6 +94,9 @@ func TestWorker(t *testing.T) {
 }
 
 var caseRunning atomic.Int64
+var currentWorld atomic.Pointer[World]
+
+func init() { onNewWorld = func(w *World) { currentWorld.Store(w) } }
 
 func runCase(t *testing.T, c Case, wd time.Duration, out string) (res Result) {
 	fam := families[c.Family]
@@ -118,6 +121,14 @@ func runCase(t *testing.T, c Case, wd time.Duration, out string) (res Result) {
 			time.Sleep(3 * time.Second)
 			d2 := bubbleDump()
 			r := Result{Case: c, Status: "hang", WallMS: time.Since(t0).Milliseconds(), Dump: d1, Dump2: d2}
+			if cw := currentWorld.Load(); cw != nil {
+				for _, o := range cw.Env.Log.OpenOps() {
+					r.Notes = append(r.Notes, fmt.Sprintf("open op: %s %s %s[%d] size=%d", o.RPC, o.Side, o.K, o.Idx, o.Size))
+					if len(r.Notes) > 40 {
+						break
+					}
+				}
+			}
 			b, _ := json.Marshal(r)
 			f, _ := os.OpenFile(out, os.O_APPEND|os.O_CREATE|os.O_WRONLY, 0o644)
 			f.Write(append(b, '\n'))
